@@ -577,9 +577,13 @@ func (in *interp) eval(e bn.Expr, env *Env) Value {
 		return in.eval(e.R, env)
 	case *bn.Assign:
 		v := in.eval(e.V, env)
-		slot, _ := env.lookup(e.Name)
+		slot, holder := env.lookup(e.Name)
 		if slot == nil {
 			in.fail(EUndefined, e.Line, e.Name)
+		}
+		if holder != nil && holder.SelfName == e.Name {
+			// whether a function's own name is a variable of each activation or of the declaring scope is not documented
+			in.unspecified("assignment to the enclosing function's own name")
 		}
 		in.shadowTag(e.Name, env)
 		*slot = v
